@@ -467,7 +467,7 @@ def locality_jobs(tier):
                 sp = j['spec']
                 if opt in FEATURES and FEATURES[opt](frm, sp):
                     continue
-                if opt == 'custom_element_patterns' and (sp.get('patterns') or sp.get('host') == 'cust' or sp.get('tag') == 'cust' or str(sp.get('tag', '')).startswith('sym')):
+                if opt == 'custom_element_patterns' and (sp.get('patterns') or str(sp.get('host', '')).startswith('cust') or sp.get('tag') == 'cust' or str(sp.get('tag', '')).startswith('sym')):
                     continue
                 if opt == 'enable_object_slots' and any(str(k).startswith('T') for k in sp.get('kids', []) if isinstance(sp.get('kids'), list)):
                     continue
